@@ -68,6 +68,11 @@ M = [
     ("C17", "register-drops-zone", "Types.py",
      "        self.unconvert.register(datetime.datetime, self._unconvert_datetime)",
      "        self.unconvert.register(datetime.datetime, lambda v: v.strftime(\"%Y%m%d%H%M%S.000[+0:UTC]\"))"),
+    # (needs a switch *between two bytecodes of one source line*: the value is parked in a process-wide list and taken
+    #  back in the same expression; line-level pre-emption can never separate the two - only the opcode-level runs can)
+    ("C17", "one-line-scratch", "Types.py",
+     "        value = saxutils.unescape(value, {\"&nbsp;\": \" \", \"&apos;\": \"'\", \"&quot;\": '\"'})\n        return self.enforce_length(value)",
+     "        value = saxutils.unescape(value, {\"&nbsp;\": \" \", \"&apos;\": \"'\", \"&quot;\": '\"'})\n        return (saxutils.__dict__.setdefault(\"_scr\", []).append(self.enforce_length(value)), saxutils._scr.pop(0))[1]"),
     # ---- C18
     ("C18", "defaults-before-user", "scripts/ofxget.py",
      "    merged: ArgsType = ChainMap(_args, user_cfg, DEFAULTS)", "    merged: ArgsType = ChainMap(_args, {k: v for k, v in DEFAULTS.items() if k == 'version'}, user_cfg, DEFAULTS)"),
